@@ -32,6 +32,8 @@ type Case struct {
 	// Between is a case that is loaded and run between the first and the second run of this case's loaded
 	// scripts (set on replays of "earlier script re-run" failures).
 	Between *Case
+	// RaiseAtRec > 0: the signal of the run is raised while the RaiseAtRec-th probe call executes (see probe.Sig).
+	RaiseAtRec int
 	// NoHistory switches the second-run checks of Decide off (signal-driven cases, v1/v2 differentials).
 	NoHistory bool
 	reportAs  *Case
@@ -89,17 +91,18 @@ func (c *Case) Replay(note string) Replay {
 
 // ImplOut is what the implementation did.
 type ImplOut struct {
-	LoadErrs map[string]error
-	Crash    *impl.Crash
-	Err      *errchain.PlError
-	Trace    []probe.Rec
-	Tags     map[string]string
-	Fields   map[string]any
-	Meas     string
-	Time     time.Time
-	Polls    int
-	After    int // probe calls after the signal was observed true
-	Aborted  bool
+	LoadErrs   map[string]error
+	Crash      *impl.Crash
+	Err        *errchain.PlError
+	Trace      []probe.Rec
+	Tags       map[string]string
+	Fields     map[string]any
+	Meas       string
+	Time       time.Time
+	Polls      int
+	After      int // probe calls after the signal was observed true
+	AfterRaise int // probe calls after the flag was raised from inside a probe call
+	Aborted    bool
 	// Again runs the already loaded root script once more on a fresh point with the given fields.
 	Again func(fields map[string]any) ImplOut
 }
@@ -147,7 +150,7 @@ func RunV1(c *Case, fireAt int) ImplOut {
 func runLoadedV1(c *Case, s *plrt.Script, fields map[string]any, fireAt int) ImplOut {
 	var out ImplOut
 	pt := impl.NewPoint(c.Meas, c.Tags, fields)
-	sig := &probe.Sig{FireAt: fireAt}
+	sig := &probe.Sig{FireAt: fireAt, RaiseAtRec: c.RaiseAtRec}
 	func() {
 		defer func() {
 			if r := recover(); r != nil {
@@ -169,6 +172,7 @@ func runLoadedV1(c *Case, s *plrt.Script, fields map[string]any, fireAt int) Imp
 	out.Trace = sig.Trace
 	out.Polls = sig.Polls
 	out.After = sig.AfterHit
+	out.AfterRaise = sig.AfterRaise
 	out.Tags, out.Fields, out.Meas, out.Time = pt.Tags, pt.Fields, pt.Measurement, pt.Time
 	if out.Crash == nil {
 		impl.ReleasePoint(pt)
@@ -218,6 +222,7 @@ func runLoadedV2(s *runtimev2.Script, sig runtimev2.Signal) ImplOut {
 	out.Trace = tr.Trace
 	if ps, ok := sig.(*probe.Sig); ok {
 		out.Polls, out.After = ps.Polls, ps.AfterHit
+		out.AfterRaise = ps.AfterRaise
 	}
 	return out
 }
